@@ -432,7 +432,7 @@ func (fr *Frame) havocLoc(st *State, env *Env, e Expr, elems bool, item string) 
 		}
 		switch u := ty.Underlying().(type) {
 		case *types.Slice:
-			fr.havocRow(st, u.Elem(), SlArr(t))
+			fr.havocRowRange(st, u.Elem(), t)
 		case *types.Map:
 			hk, hs, vk, vs := mapClasses(u)
 			hh := fc.get(st, hk, hs)
@@ -477,6 +477,21 @@ func (fr *Frame) havocRow(st *State, elem types.Type, arr *Term) {
 	h := fc.get(st, cls, s)
 	_, row := s.ArrParts()
 	st.heap[cls] = Store(h, arr, fc.fresh("assign.row", row))
+}
+
+// havocRowRange forgets exactly the elements [off, off+len) of the slice's backing array.
+func (fr *Frame) havocRowRange(st *State, elem types.Type, sl *Term) {
+	fc := fr.fc
+	cls := elemClass(elem)
+	s := elemClassSort(elem)
+	h := fc.get(st, cls, s)
+	_, row := s.ArrParts()
+	old := Select(h, SlArr(sl))
+	nr := fc.fresh("assign.row", row)
+	k := BVar("k", SBV64)
+	inside := And(bvCmp("bvule", SlOff(sl), k), bvCmp("bvult", k, bvBin("bvadd", SlOff(sl), SlLen(sl))))
+	fc.assume(True, Forall([]*Term{k}, Implies(Not(inside), Eq(Select(nr, k), Select(old, k))), []*Term{Select(nr, k)}))
+	st.heap[cls] = Store(h, SlArr(sl), nr)
 }
 
 // assignClasses over-approximates an assigns clause by heap classes (for callers' frame inference).
